@@ -55,13 +55,13 @@ def judge(rec, k, ctx, case):
 
 def encode_rec(rec):
     return {"data": runner.hx(rec["data"]), "prefix": runner.hx(rec["prefix"]), "suffix": runner.hx(rec["suffix"]),
-            "blob": runner.hx(rec["blob"]), "payload": runner.hx(rec["payload"]), "wrap": bool(rec.get("wrap")), "decoy": bool(rec.get("decoy")), "glue": bool(rec.get("glue")),
+            "blob": runner.hx(rec["blob"]), "payload": runner.hx(rec["payload"]), "wrap": bool(rec.get("wrap")), "decoy": bool(rec.get("decoy")), "glue": bool(rec.get("glue")), "strict": bool(rec.get("strict")),
             "layers": [dict(l, plain=runner.hx(l["plain"]), value=runner.hx(l["value"])) for l in rec["layers"]]}
 
 
 def decode_rec(j):
     return {"data": runner.unhx(j["data"]), "prefix": runner.unhx(j["prefix"]), "suffix": runner.unhx(j["suffix"]),
-            "blob": runner.unhx(j["blob"]), "payload": runner.unhx(j["payload"]), "wrap": bool(j.get("wrap")), "decoy": bool(j.get("decoy")), "glue": bool(j.get("glue")),
+            "blob": runner.unhx(j["blob"]), "payload": runner.unhx(j["payload"]), "wrap": bool(j.get("wrap")), "decoy": bool(j.get("decoy")), "glue": bool(j.get("glue")), "strict": bool(j.get("strict")),
             "layers": [dict(l, plain=runner.unhx(l["plain"]), value=runner.unhx(l["value"])) for l in j["layers"]]}
 
 
